@@ -1297,7 +1297,14 @@ pub fn coeff_slots_ok<F: p3_field::Field>(circuit: &p3_circuit::Circuit<F>) -> b
                 }
             }
             Op::NonPrimitiveOpWithExecutor { executor, inputs, outputs, .. } => {
-                let created = executor.created_input_witnesses(inputs);
+                // the coefficient inputs of a `recompose/coeff` row (first input limb) are sent
+                // with creator multiplicity (decided on the type id: no dependency on the
+                // executor trait's helper, which a change of the repo may rename)
+                let created: Vec<p3_circuit::WitnessId> = if executor.op_type().as_str() == "recompose/coeff" {
+                    inputs.first().cloned().unwrap_or_default()
+                } else {
+                    Vec::new()
+                };
                 for w in &created {
                     // (a) twice among coefficient inputs, (c) used before this row
                     if !coeffs.insert(w.0) || seen_use.contains(&w.0) {
